@@ -38,6 +38,7 @@ var Prop = &engine.Prop{
 		{Name: "set64", Quick: 1000, Thorough: 150000, Fn: set64Case},
 		{Name: "set1024", Quick: 2000, Thorough: 300000, Fn: set1024Case},
 		{Name: "algebra", Quick: 1000, Thorough: 150000, Fn: algebraCase},
+		{Name: "conc-iter", Quick: 120, Thorough: 6000, Fn: concIterCase},
 	},
 	Floors: floors(),
 }
